@@ -641,17 +641,25 @@ def run_e2e(ctx, impl, model, bump, viol, mism, nontriv, samples, only=None):
                 pid, hint, res = rest.split(" ", 2)
                 d["implff"].append((pid, int(hint), res))
             elif kind == "index":
-                ixid, dele, pid, size, blobs = rest.split(" ", 4)
+                ixid, dele, pid, size, tflag, blobs = rest.split(" ", 5)
                 d["index"].append((ixid, int(dele), pid, size, blobs))
+                d.setdefault("timed", []).append(int(tflag))
             elif kind == "snap":
                 sid, nf, dg = rest.split(" ")
                 d["snaps"][sid] = (nf, dg)
             elif kind == "check": d["check"] = rest
             elif kind == "note": d["note"] = rest
         digests = {}
+        repaired = False
         for tag in order:
             d = dumps[tag]
             if tag.endswith("pre"): continue
+            if tag.lstrip("0123456789").startswith("R"): repaired = True
+            # the writer stamps every IndexPack it hands to the indexer (re-read headers of repair-index carry no time)
+            tm = d.get("timed", [])
+            bump("e2e_index_entries_with_time", sum(tm)); bump("e2e_index_entries_without_time", len(tm) - sum(tm))
+            if not repaired and tag[-1] != "C" and 0 in tm:
+                viol.append(("an index entry written by the packer's file writer has no time (step %s)" % tag, "e2e", case, tag))
             iscopy = tag[-1] == "C"
             ndumps += 1
             if len(d["packs"]) >= 2: nontriv.add(case + "#" + tag)
